@@ -64,9 +64,10 @@ def main():
     run(["git", "-C", repo, "checkout", "--detach", "-q", head])
     run(["git", "-C", repo, "checkout", "-q", "--", "."])
     run(["git", "-C", repo, "clean", "-fdq"])
-    r = run(["git", "-C", repo, "apply"] + (["-R"] if reverse else []) + [patch])
-    if r.returncode != 0:
-        sys.exit("patch does not apply to /repo HEAD: " + r.stderr)
+    if os.path.basename(patch) != "none":      # PATCH "none": unpatched copy (seed / tier sweeps)
+        r = run(["git", "-C", repo, "apply"] + (["-R"] if reverse else []) + [patch])
+        if r.returncode != 0:
+            sys.exit("patch does not apply to /repo HEAD: " + r.stderr)
     # private harness copy with rewritten path dependencies
     h = os.path.join(alt, "harness")
     run(["rsync", "-a", "--delete", "--exclude", "target", os.path.join(ROOT, "harness") + "/", h + "/"])
